@@ -13,7 +13,8 @@ from ..history import Run, draw_op, replay
 from ..oracle.schema import schema
 from ..run import hyp_search, mix, h
 
-RULE = ('for every (class, attribute) pair: an equal-but-wrongly-typed value (1.0 / True for 1) gets the same verdict from a fresh element before and after another element was given the valid spelling; '
+RULE = ('for every class with element content: a deep copy of a nested element does not change when the original\'s parent is moved below another element; '
+        'for every (class, attribute) pair: an equal-but-wrongly-typed value (1.0 / True for 1) gets the same verdict from a fresh element before and after another element was given the valid spelling; '
         'k in {2,3} instances (same class / same type, other class / other type; deep copies forked from a live '
         'instance), each with its own Hypothesis-drawn adaptive history incl. failing ops and serialisations, executed '
         'under a drawn interleaving (the harness owns the schedule; single thread).  Oracle: every instance\'s sequence '
@@ -124,8 +125,40 @@ def stateless_validation(el, q):
     return None
 
 
+def detached_copy(el):
+    """a deep copy of a NESTED element is an instance of its own: what happens to the original's ancestors afterwards
+    (here: the original's parent is put below a grand-parent) does not change what the copy returns"""
+    import copy as _copy
+    from ..driver import fresh
+    from ..history import nested_child
+    s = schema()
+    t = s.element_type[el]
+    rk = call(nested_child, el)
+    rp, rg = call(fresh, 'measure', False), call(fresh, 'part', False)
+    if not (rk.ok and rp.ok and rg.ok) or not call(rp.value.add_child, rk.value).ok:
+        return None
+    rc = call(_copy.deepcopy, rk.value)
+    if not rc.ok:
+        return None
+    def out(x):
+        r = call(x.to_string)
+        return ['ok', r.value] if r.ok else [r.etype, r.msg[:200]]
+    before = out(rc.value)
+    call(rg.value.add_child, rp.value)
+    after = out(rc.value)
+    if before != after:
+        return {'kind': 'instance-affected-by-other-instance', 'type': t, 'site': None,
+                'input': {'detached_copy': True, 'element': el},
+                'observed': {'copy before': before[1][:200] if len(before) > 1 else before,
+                             'copy after the original parent was added to a part': after[1][:200] if len(after) > 1 else after},
+                'expected': 'unchanged'}
+    return None
+
+
 def replay_case(rec):
     inp = rec['input']
+    if inp.get('detached_copy'):
+        return detached_copy(inp['element'])
     if inp.get('stateless'):
         return stateless_validation(inp['element'], inp['attribute'])
     if inp.get('panel'):
@@ -311,6 +344,12 @@ def run_shard(ctx, shard, acc):
         f = stateless_validation(el, q)
         acc.case({'stateless': True, 'element': el, 'attribute': q}, True, 1)
         acc.count('stateless-attribute-pairs')
+        if f:
+            acc.fail(f, raise_=False)
+    for el in [x for x in elements if s.content_kind(s.element_type[x]) == 'elements'][shard['index']::shard['n']]:
+        f = detached_copy(el)
+        acc.case({'detached_copy': True, 'element': el}, True, 1)
+        acc.count('detached-copies')
         if f:
             acc.fail(f, raise_=False)
     f = check_panel(types, elements) if shard['index'] % 4 == 0 else None
